@@ -7,7 +7,10 @@ Require Import IOSkel.
 
 (* σ is described by the abstract set A: every owned open handle is in A, and no variable
    holds two open files *)
-Definition good (σ:st) (A:list nat) : Prop := incl (owned σ) A /\ NoDup (owned σ).
+Section Sound.
+Variable n0 : nat.   (* the number of lost files when the call starts *)
+Definition good (σ:st) (A:list nat) : Prop :=
+  incl (owned σ) A /\ NoDup (owned σ) /\ lost σ = n0.
 
 Lemma rm1_in h s x : In x (rm1 h s) -> In x s.
 Proof.
@@ -30,22 +33,45 @@ Proof.
   intros Hi Hn. unfold rm. apply filter_In. split; auto.
   apply negb_true_iff. apply Nat.eqb_neq. exact Hn.
 Qed.
-Lemma good_close h ow tc tc' A : good (ow, tc) A -> good (rm1 h ow, tc') (rm h A).
-Proof.
-  intros [Hi Hn]. cbn in *. split; cbn.
-  - intros x Hx. apply rm_in. + apply Hi. eapply rm1_in; eauto. + eapply rm1_neq; eauto.
-  - apply rm1_nodup; auto.
-Qed.
 Lemma mem_false h A : mem h A = false -> ~ In h A.
 Proof.
   unfold mem. intros H Hi. assert (existsb (Nat.eqb h) A = true); [|congruence].
   apply existsb_exists. exists h. split; auto. apply Nat.eqb_refl.
 Qed.
-Lemma good_open h ow tc A : mem h A = false -> good (ow, tc) A -> good (h :: ow, tc) (h :: A).
+Lemma mem_false_incl h ow A : mem h A = false -> incl ow A -> mem h ow = false.
 Proof.
-  intros Hm [Hi Hn]. cbn in *. split; cbn.
+  intros Hm Hi. destruct (mem h ow) eqn:E; auto. exfalso. apply (mem_false _ _ Hm).
+  unfold mem in E. apply existsb_exists in E as [y [Hy Ey]]. apply Nat.eqb_eq in Ey. subst y. auto.
+Qed.
+Lemma rm1_notin h s : ~ In h s -> rm1 h s = s.
+Proof.
+  induction s as [|y t IH]; cbn; auto. intros Hn. destruct (y =? h) eqn:E.
+  - apply Nat.eqb_eq in E. subst. exfalso. apply Hn. left; auto.
+  - f_equal. apply IH. intro. apply Hn. right; auto.
+Qed.
+Lemma good_close h ow tc tc' n A : good (ow, tc, n) A -> good (rm1 h ow, tc', n) (rm h A).
+Proof.
+  intros [Hi [Hn Hl]]. cbn in *. split; [|split]; cbn; auto.
+  - intros x Hx. apply rm_in. + apply Hi. eapply rm1_in; eauto. + eapply rm1_neq; eauto.
+  - apply rm1_nodup; auto.
+Qed.
+Lemma good_open h ow tc n A : mem h A = false -> good (ow, tc, n) A ->
+  good (h :: rm1 h ow, tc, n + b2n (mem h ow)) (h :: A).
+Proof.
+  intros Hm [Hi [Hn Hl]]. cbn in *.
+  assert (Hno : ~ In h ow) by (intro Hx; apply (mem_false _ _ Hm); auto).
+  rewrite (mem_false_incl _ _ _ Hm Hi), (rm1_notin _ _ Hno). cbn. split; [|split]; cbn.
   - intros x [->|Hx]; [left; auto|right; auto].
-  - constructor; auto. intro Hx. apply (mem_false _ _ Hm). auto.
+  - constructor; auto.
+  - rewrite Nat.add_0_r. exact Hl.
+Qed.
+Lemma good_rebind h ow tc n A : mem h A = false -> good (ow, tc, n) A ->
+  good (rm1 h ow, tc, n + b2n (mem h ow)) A.
+Proof.
+  intros Hm [Hi [Hn Hl]]. cbn in *.
+  assert (Hno : ~ In h ow) by (intro Hx; apply (mem_false _ _ Hm); auto).
+  rewrite (mem_false_incl _ _ _ Hm Hi), (rm1_notin _ _ Hno). cbn. split; [|split]; cbn; auto.
+  rewrite Nat.add_0_r. exact Hl.
 Qed.
 Lemma subl_incl a b : subl a b = true -> incl a b.
 Proof.
@@ -56,15 +82,23 @@ Lemma good_sub σ A B : good σ A -> subl A B = true -> good σ B.
 Proof. intros [Hi Hn] H. split; auto. eapply incl_tran; eauto. apply subl_incl; auto. Qed.
 Lemma good_incl σ A B : good σ A -> incl A B -> good σ B.
 Proof. intros [Hi Hn] H. split; auto. eapply incl_tran; eauto. Qed.
+Lemma union_l x y : incl x (union x y).
+Proof. unfold union. apply incl_appl, incl_refl. Qed.
+Lemma union_r x y : incl y (union x y).
+Proof.
+  unfold union. intros e He. apply in_or_app. destruct (mem e x) eqn:E.
+  - left. unfold mem in E. apply existsb_exists in E as [z [Hz Ez]]. apply Nat.eqb_eq in Ez. subst; auto.
+  - right. apply filter_In. split; auto. rewrite E. reflexivity.
+Qed.
 Lemma oj_l a b X s : a = Some X -> good s X -> exists Y, oj a b = Some Y /\ good s Y.
 Proof.
   intros -> H. destruct b as [y|]; cbn; eexists; split; eauto.
-  eapply good_incl; eauto. apply incl_appl, incl_refl.
+  eapply good_incl; eauto. apply union_l.
 Qed.
 Lemma oj_r a b X s : b = Some X -> good s X -> exists Y, oj a b = Some Y /\ good s Y.
 Proof.
   intros -> H. destruct a as [y|]; cbn; eexists; split; eauto.
-  eapply good_incl; eauto. apply incl_appr, incl_refl.
+  eapply good_incl; eauto. apply union_r.
 Qed.
 
 Ltac inv H := inversion H; subst; clear H.
@@ -104,6 +138,8 @@ Proof.
   - inv Han; cbn. eexists; split; eauto. eapply good_close; eauto.
   - inv Han; cbn. eexists; split; eauto. eapply good_close; eauto.
   - inv Han; cbn. eexists; split; eauto. eapply good_close; eauto.
+  - (* Rebind *) destruct (mem h A) eqn:Hm; [discriminate|]. inv Han; cbn.
+    eexists; split; eauto. apply good_rebind; auto.
   - (* SeqN *)
     destruct (an a A) as [ra|] eqn:Ea; [|discriminate].
     destruct (IHexec1 _ _ Ea Hin) as [A1 [G1 I1]]. cbn in G1. rewrite G1 in Han.
@@ -211,36 +247,42 @@ Proof.
     destruct (IHexec _ _ Eb Hin) as [A1 [G1 I1]]. cbn in *. eauto.
 Qed.
 
-Lemma osubl_good x A' B σ : x = Some A' -> osubl x B = true -> good σ A' -> incl (owned σ) B.
-Proof. intros -> H [Hi _]. cbn in H. eapply incl_tran; eauto. apply subl_incl; auto. Qed.
+Lemma osubl_good x A' B σ : x = Some A' -> osubl x B = true -> good σ A' ->
+  incl (owned σ) B /\ lost σ = n0.
+Proof.
+  intros -> H [Hi [_ Hl]]. cbn in H. split; auto. eapply incl_tran; eauto. apply subl_incl; auto.
+Qed.
+End Sound.
 
 (* General form: whatever raises and wherever, the handles lasio owns and has open when s
    is left are among those described at entry (A) — plus, at a `return`, the handles handed
-   to the caller (rets). *)
+   to the caller (rets) — and no open file was lost by overwriting its variable. *)
 Theorem leak_free_from_sound A rets s : leak_free_from A rets s = true ->
   forall σ o σ', incl (owned σ) A -> NoDup (owned σ) -> exec s σ o σ' ->
-    incl (owned σ') (match o with ORet => A ++ rets | _ => A end) /\ o <> OBrk /\ o <> OCnt.
+    incl (owned σ') (match o with ORet => A ++ rets | _ => A end) /\ lost σ' = lost σ
+    /\ o <> OBrk /\ o <> OCnt.
 Proof.
   unfold leak_free_from. destruct (an s A) as [r|] eqn:E; [|discriminate].
   intros H σ o σ' Hi Hn X.
-  destruct (an_sound _ _ _ _ X _ _ E (conj Hi Hn)) as [A' [G I]].
+  destruct (an_sound (lost σ) _ _ _ _ X _ _ E (conj Hi (conj Hn eq_refl))) as [A' [G I]].
   apply andb_true_iff in H as [H HB]. apply andb_true_iff in H as [H HT].
   apply andb_true_iff in H as [HN HR].
   destruct o; cbn [get] in G.
-  - split; [|split; discriminate]. eapply osubl_good; eauto.
-  - split; [|split; discriminate]. eapply osubl_good; eauto.
-  - split; [|split; discriminate]. eapply osubl_good; eauto.
+  - destruct (osubl_good _ _ _ _ _ G HN I). repeat split; auto; discriminate.
+  - destruct (osubl_good _ _ _ _ _ G HR I). repeat split; auto; discriminate.
+  - destruct (osubl_good _ _ _ _ _ G HT I). repeat split; auto; discriminate.
   - rewrite G in HB. discriminate.
   - rewrite G in HB. destruct (rB r); discriminate.
 Qed.
 
-(* The property's form: a call that starts owning nothing ends owning nothing open —
-   for every program, every outcome and every sequence of faults. *)
+(* The property's form: a call that starts owning nothing ends owning nothing open and has
+   lost no open file — for every program, every outcome and every sequence of faults. *)
 Corollary leak_free_sound s : leak_free s = true ->
-  forall tc o σ', exec s ([], tc) o σ' -> owned σ' = [].
+  forall tc n o σ', exec s ([], tc, n) o σ' -> owned σ' = [] /\ lost σ' = n.
 Proof.
-  intros H tc o σ' X.
-  destruct (leak_free_from_sound [] [] s H ([], tc) o σ' (incl_refl _) (NoDup_nil _) X) as [I _].
+  intros H tc n o σ' X.
+  destruct (leak_free_from_sound [] [] s H ([], tc, n) o σ' (incl_refl _) (NoDup_nil _) X) as [I [Hl _]].
+  split; [|exact Hl].
   destruct (owned σ') as [|x xs]; [reflexivity|]. exfalso.
   assert (Hx : In x (match o with ORet => [] ++ [] | _ => [] end)) by (apply I; left; reflexivity).
   destruct o; exact Hx.
@@ -249,11 +291,12 @@ Qed.
 (* helpers that return the file they opened: on a raise nothing is left open, on return
    only the returned handle(s) can be *)
 Corollary leak_free_ret_sound rets s : leak_free_ret rets s = true ->
-  forall tc o σ', exec s ([], tc) o σ' ->
-    match o with ORet => incl (owned σ') rets | _ => owned σ' = [] end.
+  forall tc n o σ', exec s ([], tc, n) o σ' ->
+    match o with ORet => incl (owned σ') rets | _ => owned σ' = [] end /\ lost σ' = n.
 Proof.
-  intros H tc o σ' X.
-  destruct (leak_free_from_sound [] rets s H ([], tc) o σ' (incl_refl _) (NoDup_nil _) X) as [I _].
+  intros H tc n o σ' X.
+  destruct (leak_free_from_sound [] rets s H ([], tc, n) o σ' (incl_refl _) (NoDup_nil _) X) as [I [Hl _]].
+  split; [|exact Hl].
   destruct o; try exact I;
     (destruct (owned σ') as [|x xs]; [reflexivity|]; exfalso; apply (I x); left; reflexivity).
 Qed.
@@ -264,10 +307,5 @@ Theorem caller_handles_untouched_sound : forall s σ o σ', exec s σ o σ' ->
 Proof.
   induction 1; cbn [caller_handles_untouched]; intros Hc; try reflexivity; try discriminate;
     try (apply andb_true_iff in Hc as [Hc1 Hc2]); auto; try congruence.
-  - rewrite IHexec2, IHexec1; auto.
-  - rewrite IHexec2; auto. cbn. rewrite Hc1, Hc2. reflexivity.
-  - rewrite IHexec2, IHexec1; auto.
-  - rewrite IHexec2, IHexec1; auto.
-  - rewrite IHexec2, IHexec1; auto.
-  - rewrite IHexec2, IHexec1; auto.
+  all: rewrite IHexec2, IHexec1; auto.
 Qed.
